@@ -503,3 +503,61 @@ def cols_in(e: Any) -> List[N]:
     if not isinstance(e, N):
         return []
     return [n for n in e.walk() if n.kind == 'col']
+
+
+# --------------------------------------------------------------------------------------
+# SQL templates anywhere in a module (query builders return SQL strings instead of executing them)
+# --------------------------------------------------------------------------------------
+_SQLISH = re.compile(r'\b(SELECT|INSERT|UPDATE|DELETE|CALL)\b')
+
+
+class Template:
+    def __init__(self, module: pf.Module, fn: Optional[pf.FuncDef], node: ast.expr, sql_text: str, holes: List[ast.expr]):
+        self.module = module
+        self.fn = fn
+        self.node = node
+        self.sql_text = sql_text
+        self.holes = holes
+        self._stmts: Optional[List[N]] = None
+        self.parse_error: Optional[str] = None
+
+    @property
+    def qual(self) -> str:
+        return self.module.qualname(self.fn) if self.fn is not None else '<module>'
+
+    @property
+    def lineno(self) -> int:
+        return self.node.lineno
+
+    def stmts(self) -> List[N]:
+        if self._stmts is None:
+            try:
+                self._stmts = parse_statements(self.sql_text)
+            except SqlParseError as e:
+                self._stmts = []
+                self.parse_error = str(e)
+        return self._stmts
+
+
+def templates_in(module: pf.Module, must_contain: Sequence[str] = ()) -> List[Template]:
+    """Top-level string constants / f-strings that look like SQL (not nested inside another string expression)."""
+    out: List[Template] = []
+    par = module.parents()
+    for node in ast.walk(module.tree):
+        if not isinstance(node, (ast.Constant, ast.JoinedStr)):
+            continue
+        if isinstance(node, ast.Constant) and not isinstance(node.value, str):
+            continue
+        p = par.get(node)
+        if isinstance(p, (ast.JoinedStr, ast.FormattedValue)):
+            continue
+        if isinstance(p, ast.Expr):
+            continue  # docstring / bare string
+        fn = module.enclosing_func(node)
+        sql, holes, how = _sql_of_expr(fn, node)
+        if sql is None or not _SQLISH.search(sql):
+            continue
+        if must_contain and not any(k in sql for k in must_contain):
+            continue
+        out.append(Template(module, fn, node, sql, holes))
+    return out
